@@ -91,6 +91,14 @@ def gen_case(rng):
             srcs.append(s)
         if rng.random() < 0.5:  # same mesh twice (grouping loop merges equal meshes)
             srcs.append(dict(srcs[0]))
+        if rng.random() < 0.6:  # the same LOCAL mesh again, but another magnet: own polarization and pose
+            base = [x for x in srcs if x["cls"] == "TriangularMesh"]
+            if base:
+                twin = dict(base[0])
+                twin["polarization"] = objs.rand_vec(rng)
+                if rng.random() < 0.7:
+                    twin["position"] = (np.array(twin["position"]) + rng.normal(size=3) * 4).tolist()
+                srcs.insert(int(rng.integers(0, len(srcs) + 1)), twin)
     else:  # surface: identity pose so the surface points are exact
         for _ in range(int(rng.integers(1, 3))):
             s = objs.rand_source(rng, str(rng.choice(["Cuboid", "Cylinder", "CylinderSegment", "Sphere"])), path_len=1)
